@@ -230,6 +230,10 @@ func genFlowsDirect(r *prng.R, ln int) []string {
 	}
 	nseq := r.Range(1, 4)
 	seqs := append([]string{}, seqNames[:nseq]...)
+	if r.Chance(25) {
+		seqs[r.Intn(nseq)] = "" // transactions without a sequence id
+	}
+	txn := 0
 	if len(names) == 3 {
 		seqs = append(seqs, "b", "a::retry_counter::b")
 	}
@@ -242,7 +246,8 @@ func genFlowsDirect(r *prng.R, ln int) []string {
 		if r.Chance(10) {
 			ops = append(ops, fmt.Sprintf("fq p=%s seq=%s", proto.Enc(p), proto.Enc(s)))
 		} else {
-			ops = append(ops, fmt.Sprintf("fx p=%s seq=%s", proto.Enc(p), proto.Enc(s)))
+			txn++
+			ops = append(ops, fmt.Sprintf("fx p=%s seq=%s id=t%d", proto.Enc(p), proto.Enc(s), txn))
 		}
 	}
 	return append(ops, "fleak")
@@ -263,13 +268,20 @@ func genFlowsEngine(r *prng.R, ln int) []string {
 	}
 	ops = append(ops, fmt.Sprintf("fproc name=R attempts=%d cooldown=0 mult4=%d", att, k))
 	nseq := r.Range(1, 4)
+	emptyAt := "none"
+	if r.Chance(25) {
+		emptyAt = seqNames[r.Intn(nseq)] // this sequence's transactions carry an empty sequence id
+	}
 	for len(ops) < ln {
 		s := seqNames[r.Intn(nseq)]
+		if emptyAt == s {
+			s = ""
+		}
 		st := prng.Pick(r, statuses)
 		if r.Chance(60) {
 			st = lohi[0] + r.Intn(lohi[1]-lohi[0]+1)
 		}
-		ops = append(ops, fmt.Sprintf("fx p=R seq=%s status=%d", s, st))
+		ops = append(ops, fmt.Sprintf("fx p=R seq=%s id=t%d status=%d", proto.Enc(s), len(ops), st))
 	}
 	return append(ops, "fleak")
 }
@@ -291,8 +303,15 @@ func genFlowsEngine2(r *prng.R, ln int) []string {
 	}
 	ops = append(ops, "fbuild")
 	nseq := r.Range(1, 3)
+	emptyAt := "none"
+	if r.Chance(25) {
+		emptyAt = seqNames[r.Intn(nseq)]
+	}
 	for len(ops) < ln+3 {
 		s := seqNames[r.Intn(nseq)]
+		if emptyAt == s {
+			s = ""
+		}
 		st := prng.Pick(r, statuses)
 		if r.Chance(70) {
 			st = lohi[0] + r.Intn(lohi[1]-lohi[0]+1)
@@ -301,7 +320,7 @@ func genFlowsEngine2(r *prng.R, ln int) []string {
 		if r.Chance(30) {
 			both = 0
 		}
-		ops = append(ops, fmt.Sprintf("fx2 seq=%s both=%d status=%d", s, both, st))
+		ops = append(ops, fmt.Sprintf("fx2 seq=%s id=t%d both=%d status=%d", proto.Enc(s), len(ops), both, st))
 	}
 	return ops
 }
@@ -328,7 +347,7 @@ func genPolicy(r *prng.R, ln int, disp bool) []string {
 		if r.Chance(60) {
 			rg = prng.Pick(r, []string{"429-429,500-599", "400-599", "500-599"})
 		}
-		kind = prng.Pick(r, []string{"fixed", "fixed", "strategy", "strategy", "concurrency"})
+		kind = prng.Pick(r, []string{"fixed", "fixed", "strategy", "strategy", "concurrency", "replay", "replay", "cache"})
 		ops = []string{fmt.Sprintf("dcfg attempts=%d cooldown=%d mult=%d ranges=%s early=%d kind=%s t0=%d", att, cd, mu, rg, early,
 			kind, 1_700_000_000_000_000_000+int64(r.Intn(1_000_000_000)))}
 	}
@@ -336,6 +355,11 @@ func genPolicy(r *prng.R, ln int, disp bool) []string {
 	pool := append([]string{}, seqNames[:nseq]...)
 	next := 5
 	started := map[string]int{}
+	txn := 0
+	if r.Chance(25) {
+		// a call whose transactions carry an EMPTY sequence id (alone or next to proper sequences)
+		pool[r.Intn(nseq)] = ""
+	}
 	wild := r.Chance(20) // not well-formed: `first` responses may repeat
 	for len(ops) < ln {
 		pi := r.Intn(nseq)
@@ -369,10 +393,16 @@ func genPolicy(r *prng.R, ln int, disp bool) []string {
 		if wild && started[s] == 0 && r.Chance(20) {
 			id = s + "-r0" // a sequence whose first response is never seen
 		}
-		started[s]++
+		if s == "" && !(wild && r.Chance(10)) {
+			// no sequence id: every transaction still has an id of its own
+			txn++
+			id = fmt.Sprintf("txn%d", txn)
+		}
+		id, s = proto.Enc(id), proto.Enc(s)
+		started[proto.Dec(s)]++
 		if disp && r.Chance(22) {
 			// a call on the endpoint WITHOUT a retry remedy (own sequence ids)
-			started[s]--
+			started[proto.Dec(s)]--
 			nx++
 			if r.Chance(80) {
 				ops = append(ops, fmt.Sprintf("dreq id=x%d seq=x%d ep=n early=1", nx, nx))
@@ -386,7 +416,7 @@ func genPolicy(r *prng.R, ln int, disp bool) []string {
 			case x < 55 || (kind != "fixed" && x < 65):
 				ops = append(ops, fmt.Sprintf("dreq id=%s seq=%s early=1", id, s))
 			case x < 65:
-				started[s]--
+				started[proto.Dec(s)]--
 				ops = append(ops, fmt.Sprintf("dreq id=%s seq=%s early=0", id, s))
 			default:
 				ops = append(ops, fmt.Sprintf("dresp id=%s seq=%s status=%d", id, s, st))
